@@ -39,7 +39,7 @@ ASSUMPTIONS = ["kernel schemes: strict PD only when cond(covariance) <= 1e6; for
 QUICK_JOBS = 12
 PD = ("Constant", "AdaptiveBrightness", "ConstantSplit", "AdaptiveBrightnessSplit", "GaussianKernel", "ExponentialKernel")
 MIN_MONITORS = {"*": {"symmetric": 50, "psd": 50, "pd": 30, "quadratic.constant": 10, "quadratic.adaptive": 10, "blocks": 10,
-                      "blocks.permuted": 5, "blocks.reduced": 10}}
+                      "blocks.permuted": 5, "blocks.reduced": 10, "kernel.translation_invariant": 5}}
 
 
 def plan(tier, seed):
@@ -67,7 +67,7 @@ def logu(rng, lo, hi):
     return float(np.exp(rng.uniform(np.log(lo), np.log(hi))))
 
 
-def build_mapper(ctx, rng, kind, lattice=False):
+def build_mapper(ctx, rng, kind, lattice=False, far=False):
     aa = ctx.aa
     H, W = int(rng.integers(3, 7)), int(rng.integers(3, 7))
     m, fam = gen.random_mask(rng, H, W, family=str(rng.choice(["dense", "all_unmasked", "bernoulli", "holes"])))
@@ -78,6 +78,10 @@ def build_mapper(ctx, rng, kind, lattice=False):
     osamp = aa.OverSamplerUniform(mask=mask, sub_size=int(rng.integers(1, 3)))
     g = _np(osamp.over_sampled_grid).copy()
     src, dk = gen_aa.distort(rng, g)
+    if far:
+        # the same source plane far from the coordinate origin (1e3 .. 1e6 units away): every scheme depends on coordinate
+        # differences only, so definiteness and the quadratic forms are unchanged
+        src = src + np.array([1.0, -0.7]) * float(10.0 ** rng.uniform(3, 6))
     n = int((~m).sum())
     dyn = logu(rng, 1.0, 1e4)
     adapt = aa.Array2D(values=np.exp(rng.uniform(0, np.log(dyn), size=n)) * 0.05, mask=mask)
@@ -145,7 +149,10 @@ def schemes(ctx, rng, kind):
 
 
 def check_matrix(ctx, name, r, mp, desc, rng, pairs, W):
-    ok, Hm = ctx.guarded("matrix.construct", lambda: _np(r.regularization_matrix_from(linear_obj=mp)).astype(float))
+    try:
+        ok, Hm = ctx.guarded("matrix.construct", lambda: _np(r.regularization_matrix_from(linear_obj=mp)).astype(float))
+    except Exception:
+        raise
     if not ok:
         return None
     P = int(mp.params)
@@ -198,7 +205,8 @@ def run_mesh(ctx, i):
     rng = gen.rng_for(ctx.seed, NO, 1, i)
     kind = "rect" if i % 2 == 0 else "del"
     lattice = kind == "del" and i % 8 == 3
-    ok, res = ctx.guarded("mapper.construct", lambda: build_mapper(ctx, rng, kind, lattice))
+    far = (i % 8 in (1, 6))
+    ok, res = ctx.guarded("mapper.construct", lambda: build_mapper(ctx, rng, kind, lattice, far))
     if not ok:
         return
     mp, desc, m = res
@@ -217,12 +225,20 @@ def run_mesh(ctx, i):
                 ctx.skipped["kernel:cond(covariance)>1e6"] += 1
                 continue
         W["scheme_params"] = params
+        if name.endswith("Split"):
+            # the split schemes need the Voronoi cell areas; scipy/qhull may refuse a vertex set (documented: any qhull failure is
+            # turned into MeshException so that callers can discard the mesh) - such meshes are outside the domain
+            try:
+                mp.source_plane_mesh_grid.voronoi
+            except ctx.aa.exc.MeshException:
+                ctx.skipped["split_scheme:MeshException_from_qhull(mesh_discarded_by_design)"] += 1
+                continue
         Hm = check_matrix(ctx, name, r, mp, desc, rng, pairs, W)
         if Hm is None:
             continue
         offdiag = bool(np.abs(Hm - np.diag(np.diag(Hm))).max() > 0)
         ctx.case(name, sorted(params.items()), _np(mp.source_plane_mesh_grid), nontrivial=(int(mp.params) >= 4 and offdiag),
-                 cls=["scheme:" + name, "mesh:" + kind + ("_lattice_vertices" if desc.get("lattice") else "")] + (["nonsquare_mesh"] if kind == "rect" and desc["shape"][0] != desc["shape"][1] else []),
+                 cls=["scheme:" + name, "mesh:" + kind + ("_lattice_vertices" if desc.get("lattice") else "")] + (["source_plane_far_from_origin"] if far else []) + (["nonsquare_mesh"] if kind == "rect" and desc["shape"][0] != desc["shape"][1] else []),
                  sample=lambda: {"scheme": name, "params": params, "mesh": desc["shape"] if kind == "rect" else "delaunay %d vertices" % len(desc["vertices"]),
                                  "min_eig": float(np.linalg.eigvalsh((Hm + Hm.T) / 2).min())})
 
@@ -285,6 +301,19 @@ def run_large_kernel(ctx, i):
                 chol = False
             ctx.check(ev.min() > 0 and chol, "pd", scheme=name, min_eig=float(ev.min()), cholesky=chol, **W)
         ctx.check(ev.min() >= -max(1e-10, floor) * float(ev.max()), "psd", scheme=name, min_eig=float(ev.min()), max_eig=float(ev.max()), noise_floor=floor, **W)
+        # the kernel schemes depend on distances only: the same mesh 1e6 units away gives the same matrix, up to the rounding of the
+        # coordinates (u * 1e6 relative to the spacing, amplified by cond(C)); a distance formula that cancels catastrophically at
+        # large coordinates is 1e6 times worse
+        if i % 2 == 0 and cond <= 1e7:
+            off = np.array([1.0e6, -7.0e5])
+            lo2 = Obj()
+            lo2.source_plane_mesh_grid = aa.Mesh2DRectangular.overlay_grid(shape_native=shape, grid=aa.Grid2DIrregular(values=src + off))
+            lo2.params = lo.params
+            ok2, H2 = ctx.guarded("matrix.construct", lambda: _np(r.regularization_matrix_from(linear_obj=lo2)).astype(float))
+            if ok2 and H2.shape == Hm.shape:
+                rel = float(np.abs(H2 - Hm).max() / scH)
+                ctx.check(rel <= 1e-7 * max(cond, 10.0), "kernel.translation_invariant", scheme=name, relative_difference=rel, allowed=1e-7 * max(cond, 10.0),
+                          offset=off, **W)
         ctx.case("large", name, shape, sc, coef, V, nontrivial=True, cls=["scheme:" + name, "mesh:rect_large", "cond(C):1e%d" % int(np.floor(np.log10(cond)))],
                  sample=lambda: {"scheme": name, "mesh": shape, "scale_in_pixel_spacings": f, "cond_covariance": cond, "min_eig": float(ev.min())})
 
